@@ -372,5 +372,45 @@ func ddp_replace_char_in_string [C12, C06, C05]
   loop 0 invariant 1 <= len_ && len_ <= index && count(k, 0, i, !isCont(byteAt(str.str, k))) == index - len_
   loop 0 invariant str_addr == str && index_addr == index && ch_addr == ch && str.str.B != nil && str.cap >= 2
   loop 0 decreases lenB(str) - i
+
+// a Text from a C string: a private copy of its bytes (the canonical empty Text for "")
+func ddp_string_from_constant [C12, C05]
+  requires ret != nil && (exists n int :: nulAt(str, n))
+  modifies ddprt.ddpstring, ddprt.Blk.$n, ddprt.Blk.$m
+  ensures wfStr(ret)
+  ensures forall n int :: old(nulAt(str, n)) ==> lenB(ret) == n && (forall k int :: 0 <= k && k < n ==> byteAt(ret.str, k) == old(byteAt(str, k)))
+  ensures ret.str.B != nil ==> fresh(ret.str.B)
+  ensures forall s *ddpstring :: s != ret && !fresh(s) ==> s.str == old(s.str) && s.cap == old(s.cap)
+  ensures forall b *Blk :: !fresh(b) ==> b.$n == old(b.$n)
+  ensures forall b *Blk, k int :: !fresh(b) ==> b.$m[k] == old(b.$m[k])
+
+// Buchstabe -> Text: the encoding of c (the empty Text for a value that is not a character)
+func ddp_char_to_string [C12, C05]
+  requires ret != nil
+  modifies ddprt.ddpstring, ddprt.Blk.$n, ddprt.Blk.$m
+  ensures ret.str.B != nil && ret.str.O == 0 && ret.str.B.$n == ret.cap && nulAt(ret.str, ret.cap - 1)
+  ensures validCp(c) && c != 0 ==> ret.cap == encLen(c) + 1 && (forall k int :: 0 <= k && k < encLen(c) ==> byteAt(ret.str, k) == encByte(c, k))
+  ensures !validCp(c) ==> ret.cap == 1
+
+// Buchstabe followed by Text / Text followed by Buchstabe: the encoding of c before / after the bytes of str;
+// str is consumed
+func ddp_char_string_verkettet [C12, C05]
+  requires wfStr(str) && ret != nil && ret != str
+  modifies ddprt.ddpstring, ddprt.Blk.$n, ddprt.Blk.$m
+  ensures wfStr(ret)
+  ensures validCp(c) && c != 0 ==> lenB(ret) == encLen(c) + old(lenB(str))
+  ensures validCp(c) && c != 0 ==> (forall k int :: 0 <= k && k < encLen(c) ==> byteAt(ret.str, k) == encByte(c, k))
+  ensures validCp(c) && c != 0 ==> (forall k int :: 0 <= k && k < old(lenB(str)) ==> byteAt(ret.str, encLen(c) + k) == old(byteAt(str.str, k)))
+  ensures !validCp(c) ==> lenB(ret) == old(lenB(str)) && (forall k int :: 0 <= k && k < lenB(ret) ==> byteAt(ret.str, k) == old(byteAt(str.str, k)))
+  ensures str.str.B == nil && str.cap == 0
+func ddp_string_char_verkettet [C12, C05]
+  requires wfStr(str) && ret != nil && ret != str
+  modifies ddprt.ddpstring, ddprt.Blk.$n, ddprt.Blk.$m
+  ensures wfStr(ret)
+  ensures validCp(c) && c != 0 ==> lenB(ret) == old(lenB(str)) + encLen(c)
+  ensures validCp(c) && c != 0 ==> (forall k int :: 0 <= k && k < old(lenB(str)) ==> byteAt(ret.str, k) == old(byteAt(str.str, k)))
+  ensures validCp(c) && c != 0 ==> (forall k int :: 0 <= k && k < encLen(c) ==> byteAt(ret.str, old(lenB(str)) + k) == encByte(c, k))
+  ensures !validCp(c) ==> lenB(ret) == old(lenB(str)) && (forall k int :: 0 <= k && k < lenB(ret) ==> byteAt(ret.str, k) == old(byteAt(str.str, k)))
+  ensures str.str.B == nil && str.cap == 0
 @*/
 #endif
